@@ -4,12 +4,14 @@ use crate::core::{Space, Tier};
 
 pub mod c01;
 pub mod c02;
+pub mod c11;
 pub mod c12;
 pub mod c14;
+pub mod c15;
 pub mod c19;
 pub mod c20;
 
-pub const ALL: &[&str] = &["C01", "C02", "C12", "C14", "C19", "C20"];
+pub const ALL: &[&str] = &["C01", "C02", "C11", "C12", "C14", "C15", "C19", "C20"];
 
 pub fn intern(id: &str) -> Option<&'static str> {
     ALL.iter().copied().find(|p| *p == id)
@@ -26,8 +28,10 @@ pub fn meta(prop: &str) -> Option<Meta> {
     match prop {
         "C01" => Some(c01::meta()),
         "C02" => Some(c02::meta()),
+        "C11" => Some(c11::meta()),
         "C12" => Some(c12::meta()),
         "C14" => Some(c14::meta()),
+        "C15" => Some(c15::meta()),
         "C19" => Some(c19::meta()),
         "C20" => Some(c20::meta()),
         _ => None,
@@ -38,8 +42,10 @@ pub fn spaces(prop: &str, tier: Tier, seed: u64) -> Vec<Box<dyn Space>> {
     match prop {
         "C01" => c01::spaces(tier, seed),
         "C02" => c02::spaces(tier, seed),
+        "C11" => c11::spaces(tier, seed),
         "C12" => c12::spaces(tier, seed),
         "C14" => c14::spaces(tier, seed),
+        "C15" => c15::spaces(tier, seed),
         "C19" => c19::spaces(tier, seed),
         "C20" => c20::spaces(tier, seed),
         _ => Vec::new(),
@@ -49,7 +55,8 @@ pub fn spaces(prop: &str, tier: Tier, seed: u64) -> Vec<Box<dyn Space>> {
 /// Self-checks of reference models and alphabets; a failure is a machinery error (exit 2).
 pub fn self_check(prop: &str) -> Result<(), String> {
     match prop {
-        "C01" | "C02" | "C12" => c01::self_check(),
+        "C01" | "C02" | "C11" | "C12" => c01::self_check(),
+        "C15" => c15::self_check(),
         "C20" => c20::self_check(),
         _ => Ok(()),
     }
